@@ -861,6 +861,95 @@ fn binder_names_grid() -> (u64, u64, Vec<Violation>) {
     (n, both_ran, out)
 }
 
+/// An accepted `match` without a catch-all arm always has an arm for what it meets: every set of
+/// one to three type arms over an alphabet of 23 arm types x 11 static types of the scrutinee
+/// (arrays, tuples and structs over unions, unions of arrays, any). When the checker accepts the
+/// match, every value of the scrutinee type (uniform and mixed contents, empty arrays) runs the
+/// first arm its run-time type matches - none falls through.
+fn coverage_grid() -> (u64, u64, u64, Vec<Violation>) {
+    use simplesl::variable::{Type, Typed, Variable};
+    use simplesl::{Code, Interpreter};
+    const SCRUTINEES: &[(&str, &[&str])] = &[
+        ("[int|float]", &["[1]", "[2.5]", "[1, 2.5]", "[0; 0]", "[0.0; 0]", "[1, 2.5][0:1]"]),
+        ("(int|float, int)", &["(1, 1)", "(2.5, 1)"]),
+        ("struct{a: int|float}", &["struct{ a := 1 }", "struct{ a := 2.5 }"]),
+        ("int|float", &["1", "2.5"]),
+        ("[int]|[float]", &["[1]", "[2.5]", "[0; 0]"]),
+        ("[[int]|[float]]", &["[[1]]", "[[2.5]]", "[[1], [2.5]]", "[[0; 0]]"]),
+        ("int|string|()", &["1", "\"s\"", "()"]),
+        ("any", &["1", "\"s\"", "[1]"]),
+        ("[any]", &["[1]", "[\"s\"]", "[1, \"s\"]"]),
+        ("(int|string, int|string)", &["(1, 1)", "(1, \"s\")", "(\"s\", 1)", "(\"s\", \"s\")"]),
+        ("[int|string]|string", &["[1]", "[\"s\"]", "[1, \"s\"]", "\"s\""]),
+    ];
+    const ARMS: &[&str] = &[
+        "int", "float", "string", "()", "[int]", "[float]", "[int|float]", "[any]", "[string]", "(int, int)", "(float, int)", "(int|float, int)",
+        "struct{a: int}", "struct{a: float}", "struct{a: int|float}", "[[int]]", "[[float]]", "[[int]|[float]]", "(int, int|string)",
+        "(string, int|string)", "(int|string, int)", "(int|string, string)", "[int|string]",
+    ];
+    let mut sets: Vec<Vec<usize>> = Vec::new();
+    for a in 0..ARMS.len() {
+        sets.push(vec![a]);
+        for b in a + 1..ARMS.len() {
+            sets.push(vec![a, b]);
+            for c in b + 1..ARMS.len() {
+                sets.push(vec![a, b, c]);
+            }
+        }
+    }
+    let arm_types: Vec<Type> = ARMS.iter().map(|t| t.parse::<Type>().expect("arm type parses")).collect();
+    let jobs: Vec<(usize, usize)> = (0..SCRUTINEES.len()).flat_map(|s| (0..sets.len()).map(move |k| (s, k))).collect();
+    let accs = par_fold(
+        jobs.len(),
+        || (Vec::<Violation>::new(), 0u64, 0u64, Interpreter::with_stdlib()),
+        |(out, accepted, runs, interp), j| {
+            let (si, ki) = jobs[j];
+            let (sty, values) = SCRUTINEES[si];
+            let set = &sets[ki];
+            let arms: String = set.iter().enumerate().map(|(i, a)| format!("x{i}: {} => {i}, ", ARMS[*a])).collect();
+            let def = format!("f := (v: {sty}) -> int {{ return match v {{ {arms}}} }}");
+            let f = match guard(|| Code::parse(interp, &def).map(|c| c.exec())) {
+                Ok(Ok(Ok(Variable::Function(f)))) => f,
+                Ok(_) => return, // rejected: the checker may ask for more arms than needed
+                Err(_) => {
+                    out.push(Violation { sig: format!("C12|match-coverage|checker-panics|scrutinee={}", sty.replace('|', "/")), detail: json!({"kind": "program", "stdlib": true, "text": def}) });
+                    return;
+                }
+            };
+            *accepted += 1;
+            for lit in values {
+                let Ok(Ok(Ok(v))) = guard(|| Code::parse(interp, lit).map(|c| c.exec())) else { continue };
+                let tag = v.as_type();
+                let want = set.iter().position(|a| tag.matches(&arm_types[*a]));
+                *runs += 1;
+                let got = match guard(|| f.clone().create_call(vec![v]).map(|c| c.exec())) {
+                    Ok(Ok(Ok(r))) => canon(&r),
+                    Ok(Ok(Err(e))) => format!("error:{}", core::exec_error_kind(&e)),
+                    Ok(Err(e)) => format!("host-rejects:{}", core::error_kind(&e)),
+                    Err(Stop::Panic(p)) => format!("PANIC {} @{}", p.short_msg(), p.file()),
+                    Err(Stop::Exhausted) => continue,
+                };
+                let want_s = want.map(|i| i.to_string()).unwrap_or_else(|| "an arm (the match was accepted without a catch-all)".into());
+                if got != want_s {
+                    out.push(Violation {
+                        sig: format!("C12|match-coverage|{}|scrutinee={}|arms={}", if want.is_none() { "accepted-match-has-no-arm-for-a-value" } else { "wrong-arm" }, sty.replace('|', "/"), set.iter().map(|a| ARMS[*a].replace('|', "/")).collect::<Vec<_>>().join(" ; ")),
+                        detail: json!({"kind": "host_call", "program": def, "args": [lit], "run_time_type_of_the_value": tag.to_string(), "expected": want_s, "observed": got}),
+                    });
+                }
+            }
+        },
+    );
+    let mut out = Vec::new();
+    let (mut accepted, mut runs) = (0, 0);
+    for (v, a, r, _) in accs {
+        out.extend(v);
+        accepted += a;
+        runs += r;
+    }
+    out.truncate(400);
+    (jobs.len() as u64, accepted, runs, out)
+}
+
 /// A failing operation on values captured by a function value fails when it is reached and
 /// only then: creating the function value evaluates nothing of its body (so a branch that is not
 /// chosen, or a function that is never called, cannot make the program fail), and reaching the
@@ -1226,6 +1315,8 @@ pub fn run(tier: &str) -> i32 {
     report.violations(boundaries.1);
     let arm_order = core::on_big_stack(arm_order_grid);
     report.violations(arm_order.2);
+    let coverage_matches = core::on_big_stack(coverage_grid);
+    report.violations(coverage_matches.3);
     let binder_names = core::on_big_stack(binder_names_grid);
     assert!(binder_names.1 * 2 > binder_names.0, "binder-name grid: most pairs must run ({} of {})", binder_names.1, binder_names.0);
     report.violations(binder_names.2);
@@ -1242,6 +1333,7 @@ pub fn run(tier: &str) -> i32 {
         "programs": programs,
         "runs": runs,
         "constant_twins_the_checker_rejected": rejected_constant_twins,
+        "match_coverage (sets of 1..3 type arms over 23 arm types x 11 scrutinee types, no catch-all)": {"matches": coverage_matches.0, "accepted_by_the_checker": coverage_matches.1, "runs_on_values_of_the_scrutinee_type": coverage_matches.2},
         "binder_name_pairs (19 binding forms x 12 outside meanings x 5 scrutinees; binder named like the outside name vs fresh)": binder_names.0,
         "binder_name_pairs_in_which_both_programs_ran": binder_names.1,
         "scrutinee_values": scr.len() * 2,
